@@ -2,12 +2,14 @@
    logrotate depth.  Model: Model/Catalog.v (string-level matchers for the
    four fixed regular expressions, _filtered_dir, _expand_path, register,
    get_source_id, task-level de-duplication).  Spec: Spec/Catalog.v. *)
-From Coq Require Import ZArith List Bool.
+From Coq Require Import String ZArith List Bool.
+From SK Require Import Model.Skel Model.Stm Model.SequenceSk Gen.SkelTree.
 From SK Require Import Model.Collection Model.Catalog Spec.Catalog
      Proofs.CatalogStr Proofs.CatalogDir Proofs.CatalogReg
-     Proofs.CatalogBoundary Proofs.CatalogTop Gen.Params.
+     Proofs.CatalogBoundary Proofs.CatalogTop Gen.Params Gen.XCatalog.
 Import ListNotations.
 Open Scope Z_scope.
+Open Scope list_scope.
 
 (* ---- T1: the hand-written matchers are matchers for the regex strings
    that are in the source NOW (a changed regex breaks these proofs) *)
@@ -249,6 +251,99 @@ Proof.
     (vm_compute; repeat (constructor; [simpl; intuition discriminate|]);
      constructor).
 Qed.
+
+(* ---- T1, structure: the TREE skeletons and the expression-level pieces
+   that translator/skeleton.py and translator/plugins/catalog.py regenerate
+   from the source on every run *)
+Local Open Scope string_scope.
+
+(* _filtered_dir, calls and tests only: per path - isfile test (skip), no
+   match (keep, next), endswith test (keep | group); then per group one
+   sorted() *)
+Definition expected_filtered_dir : list stm :=
+  [ SLoop [ SEv (Call "isfile"); SIf [SExit] [];
+            SIf [SEv (Call "keep"); SExit] [];
+            SEv (Call "endswith_log");
+            SIf [SEv (Call "keep")] [SIf [] []] ];
+    SLoop [ SEv (Call "sorted") ];
+    SExit ].
+
+Theorem C09_filtered_dir_shape :
+  calls_only_list tk_filtered_dir = expected_filtered_dir.
+Proof. vm_compute. reflexivity. Qed.
+
+(* register: tag table update, then per expanded path: existing entry |
+   get_source_id + new entry *)
+Definition expected_register : list stm :=
+  [ SIf [SIf [SIf [] []] []] []; SIf [] [];
+    SEv (Call "expand_path");
+    SLoop [ SIf [] [SEv (Call "get_source_id")] ] ].
+
+Theorem C09_register_shape : calls_only_list tk_register = expected_register.
+Proof. vm_compute. reflexivity. Qed.
+
+Local Close Scope string_scope.
+
+(* the model's _filtered_dir IS the loop structure above filled with the
+   expressions extracted from the source: the isfile test, the literal of
+   endswith(), the string appended for a live log, `limit` and the slice
+   bound of sorted(...)[:limit] (an edit such as [:limit + 1] breaks this) *)
+Definition fd_step_src (grp : str -> option str) (acc : fd_state)
+           (e : str * bool) : fd_state :=
+  let '(newc, groups) := acc in
+  let '(path, isfile) := e in
+  if x_fd_skips isfile then acc
+  else match grp path with
+       | None => (newc ++ [path], groups)
+       | Some pfx =>
+           if ends_with path x_fd_live_suffix
+           then (newc ++ [x_fd_live_appended pfx], groups)
+           else (newc, dappend str_eqb groups pfx path)
+       end.
+
+Definition filtered_dir_src (grp : str -> option str) (nm : Z)
+           (contents : list (str * bool)) (depth : Z) : list str :=
+  let '(newc, groups) := fold_left (fd_step_src grp) contents ([], []) in
+  newc ++ flat_map (fun g => x_fd_cap (sort_key nm) (x_fd_limit depth) (snd g))
+                   groups.
+
+Theorem C09_filtered_dir_is_source_pieces : forall grp nm contents depth,
+  x_fd_groups_by_prefix = true /\
+  filtered_dir_src grp nm contents depth = filtered_dir grp nm contents depth.
+Proof. intros. split; reflexivity. Qed.
+
+Theorem C09_cap_is_source_slice : forall (A : Type) (key : A -> Z) limit l d,
+  x_fd_cap key limit l = py_take limit (sort_by key l) /\ x_fd_limit d = d.
+Proof. intros. split; reflexivity. Qed.
+
+(* get_source_id: 0 for the first path, max(ids) + 1 for a new one *)
+Definition get_source_id_src (t : list (Z * str)) (path : str)
+  : Z * list (Z * str) :=
+  match t with
+  | [] => (x_first_source_id, [(x_first_source_id, path)])
+  | _ => match find_source t path with
+         | Some i => (i, t)
+         | None => let i := x_next_source_id (max_id t) in
+                   (i, dset Z.eqb t i path)
+         end
+  end.
+
+Theorem C09_get_source_id_is_source_pieces : forall t path,
+  get_source_id_src t path = get_source_id t path.
+Proof. intros. destruct t; reflexivity. Qed.
+
+(* logrotate_log_sort: first matching filter wins, a filter without group
+   sorts as 0, otherwise int(group(1)); _expand_path: the three cases *)
+Theorem C09_sort_and_expand_from_source :
+  x_sort_first_match_wins = true /\ x_sort_live_key = 0 /\
+  x_sort_group_index = 1 /\
+  x_expand_file_is_itself = true /\ x_expand_dir_joins = true /\
+  x_expand_glob_filtered = true /\
+  (* task level: search_defs is a dict keyed by the definition and the
+     per-line loop iterates it *)
+  x_task_defs_dict_keyed_by_definition = true /\
+  x_task_line_loop_over_search_defs = true.
+Proof. repeat split; reflexivity. Qed.
 
 Print Assumptions C09_filtered_dir_sound_complete.
 Print Assumptions C09_expand_path_exact.
